@@ -71,4 +71,12 @@ var specs = map[string]*propSpec{
 		Real: []string{"pkg/blobserver/{memory,files,localdisk,diskpacked,blobpacked,encrypt,replica,shard,cond,overlay,namespace,proxycache}"},
 		Stub: []string{"SimStore", "SimKV", "SimVFS", "os shim"},
 	},
+	"C04": {
+		ID: "C04", Engine: "storesim", Level: "fault_enumeration",
+		QuickRuns: 1200, ThoroughRuns: 40000, Chunk: 10, WatchdogS: 600,
+		Rule:      "one evaluation = one history on blobpacked(small, large, meta) over simulated stores: 1-2 files at/above (a few below) the 512 KiB packing threshold cut by the harness's own chunker (fixed or irregular chunks, optional nested bytes schemas, repeated chunks, identical content under two names), uploaded in a seeded order, with the zip size cap lowered through an injected accessor in most runs (multi-zip packs), then removals, re-uploads and restarts in recovery modes none/fast/full with or without wiping meta; sub-runs = re-executions in which the process dies before each mutating lower-layer call of a packing receive (zip stored, meta batch, loose-blob removal per zip, final whole-file row) followed by a restart in each recovery mode, a sweep, a full recovery from the zips alone and another sweep; each sweep checks fetch/sub-fetch/stat/enumerate of every logical blob against the reference map, whole-file reads at several offsets, and every zip (valid blob within the cap, first entry contiguous file content, manifest consistent)",
+		Real:      []string{"pkg/blobserver/blobpacked (pack, writeAZip, reindex/recovery, wholefetch, subfetch, enumerate)", "pkg/schema FileReader (used by the packer)"},
+		Stub:      []string{"SimStore small/large", "SimKV meta", "harness chunker (hand-built file/bytes schema blobs)"},
+		MustReach: []string{"multi-zip", "pack-crash-enumerated", "wholeref-read", "zip-validated"},
+	},
 }
